@@ -1,10 +1,278 @@
-/- driver ops for property C11 (model side of the correspondence) -/
-import Rsa.Core.Wire
+/- driver ops for property C11 (model side of the correspondence)
 
-open Lean Rsa.Wire
+  One request = one session:
+    {"op":"c11.session","init":<dataset>,"ops":[<op>...]}
+  answer: one entry per op  {"args":<resolved arguments>,"out":"inadmissible" | {"state":[<dataset>...]}
+                             | {"query":...}}
+  The workspace is a list of datasets; an op addresses one of them by `at` (mod length).
+  Arguments are symbolic (k-th key of a descriptor table in sorted order, value at a
+  position of that column) and are resolved here against the current model state; the
+  Python adaptor resolves them the same way against the real objects and the resolved
+  arguments are compared too.
+-/
+import Rsa.Core.Wire
+import Rsa.Core.Dataset
+
+open Lean Rsa.Wire Rsa.Dataset
 
 namespace Rsa.Drv.C11
 
-def handle : Handler := fun _op _j => none
+abbrev D := DS Rat
+
+/-! ### JSON -/
+
+def asLbl (j : Json) : R Lbl :=
+  match j with
+  | .str s => pure (.str s)
+  | .obj _ => do let q ← fld j "q" >>= asRat; pure (.num q)
+  | _ => do let i ← asInt j; pure (.num (i : Rat))
+
+def ofLbl : Lbl → Json
+  | .str s => Json.str s
+  | .num q => if q.den = 1 then ofInt q.num else obj [("q", Json.str (Rsa.showRat q))]
+
+def asTbl (j : Json) : R Tbl := do
+  (← asArr j).mapM (fun kv => do
+    match ← asArr kv with
+    | [k, c] => do pure ((← asStr k), (← asList asLbl c))
+    | _ => throw "descriptor entry must be [key, column]")
+
+def asRow (j : Json) : R Row := do
+  (← asArr j).mapM (fun kv => do
+    match ← asArr kv with
+    | [k, v] => do pure ((← asStr k), (← asLbl v))
+    | _ => throw "descriptor entry must be [key, value]")
+
+def ofTbl (t : Tbl) : Json :=
+  obj ((sortKeys t).map (fun kc => (kc.1, ofList ofLbl kc.2)))
+def ofRow (t : Row) : Json :=
+  obj ((sortKeys t).map (fun kv => (kv.1, ofLbl kv.2)))
+
+def asDS (j : Json) : R D := do
+  let temporal ← fld j "temporal" >>= asBool
+  let meas ← fld j "meas" >>= asList (asList (asList asRat))
+  let desc ← fld j "desc" >>= asRow
+  let obs ← fld j "obs" >>= asTbl
+  let chan ← fld j "chan" >>= asTbl
+  let time ← fld j "time" >>= asTbl
+  pure { temporal, meas, desc, obs, chan, time }
+
+def ofDS (d : D) : Json :=
+  obj [("temporal", Json.bool d.temporal),
+       ("meas", if d.temporal then ofList (ofList (ofList ofRat)) d.meas
+                else ofList (ofList ofRat) (d.meas.map (fun r => r.flatten))),
+       ("desc", ofRow d.desc), ("obs", ofTbl d.obs), ("chan", ofTbl d.chan),
+       ("time", ofTbl d.time)]
+
+/-! ### symbolic arguments -/
+
+def sortedKeys (t : Tbl) : List String := (sortKeys t).map (·.1)
+
+/-- k-th key (mod count) in sorted order -/
+def pickKey (t : Tbl) (k : Nat) : Option String :=
+  let ks := sortedKeys t
+  if ks.isEmpty then none else ks[k % ks.length]?
+
+def pickVal (c : Col) (p : Nat) : Option Lbl :=
+  if c.isEmpty then none else c[p % c.length]?
+
+/-- a value of the column's type that does not occur in it -/
+def absentVal (c : Col) : Lbl :=
+  match c with
+  | .str _ :: _ => .str "~absent~"
+  | _ => .num 987654
+
+def groupsOf (d : D) (k : String) : Nat :=
+  match d.obs.col k with
+  | none => 0
+  | some c => (uniqueFirst c).length
+
+def isIntOrStrCol (c : Col) : Bool := c.all (fun x => match x with | .num q => q.den == 1 | _ => true)
+
+def isIntCol (c : Col) : Bool := c.all (fun x => match x with | .num q => q.den == 1 | _ => false)
+
+inductive Out where
+  | inadm
+  | state (ws : List D)
+  | query (j : Json)
+
+def natD (j : Json) (k : String) : Nat :=
+  match (fldD j k (Json.num 0)).getNat? with
+  | .ok n => n
+  | .error _ => 0
+
+def boolD (j : Json) (k : String) : Bool :=
+  match (fldD j k (Json.bool false)).getBool? with
+  | .ok b => b
+  | .error _ => false
+
+def natsD (j : Json) (k : String) : List Nat :=
+  match asList asNat (fldD j k (Json.arr #[])) with
+  | .ok l => l
+  | .error _ => []
+
+/-- every state change goes through the proved `applyOp` of `Rsa.Core.Dataset` -/
+def ofApply (ws : List D) (o : Op) : Out :=
+  match applyOp ws o with
+  | none => .inadm
+  | some ws' => .state ws'
+
+/-- one step: resolved arguments and outcome -/
+def step (ws : List D) (o : Json) : R (Json × Out) := do
+  let name ← fld o "name" >>= asStr
+  if ws.isEmpty then return (Json.null, .inadm)
+  let i := natD o "at" % ws.length
+  let some d := ws[i]? | return (Json.null, .inadm)
+  let k := natD o "k"
+  let ok := nonEmpty d
+  let args (kvs : List (String × Json)) : Json := obj (("at", ofNat i) :: kvs)
+  match name with
+  | "copy" => pure (args [], ofApply ws (.copy i))
+  | "pick" => pure (args [], ofApply ws (.pick i))
+  | "merge" => pure (Json.null, ofApply ws .merge)
+  | "split_obs" =>
+    match pickKey d.obs k with
+    | some by_ => pure (args [("by", Json.str by_)],
+        if ok then ofApply ws (.splitObs i by_) else .inadm)
+    | none => pure (args [], .inadm)
+  | "split_channel" =>
+    match pickKey d.chan k with
+    | some by_ => pure (args [("by", Json.str by_)],
+        if ok then ofApply ws (.splitChan i by_) else .inadm)
+    | none => pure (args [], .inadm)
+  | "split_time" =>
+    match pickKey d.time k with
+    | some by_ => pure (args [("by", Json.str by_)],
+        if ok && d.temporal then ofApply ws (.splitTime i by_) else .inadm)
+    | none => pure (args [], .inadm)
+  | "subset_obs" | "subset_channel" =>
+    let t := if name == "subset_obs" then d.obs else d.chan
+    match pickKey t k with
+    | none => pure (args [], .inadm)
+    | some by_ =>
+      let col := (t.col by_).getD []
+      let vals := if boolD o "absent" then [absentVal col]
+                  else (natsD o "vals").filterMap (pickVal col)
+      let vals := if boolD o "scalar" then vals.take 1 else vals
+      let a := args [("by", Json.str by_), ("vals", ofList ofLbl vals),
+                     ("scalar", Json.bool (boolD o "scalar"))]
+      if !ok || (boolD o "scalar" && vals.isEmpty) then pure (a, .inadm)
+      else
+        pure (a, ofApply ws (if name == "subset_obs" then .subsetObs i by_ vals else .subsetChan i by_ vals))
+  | "subset_time" =>
+    match pickKey d.time k with
+    | none => pure (args [], .inadm)
+    | some by_ =>
+      let col := (d.time.col by_).getD []
+      let (lo, hi) :=
+        if boolD o "absent" then (absentVal col, absentVal col)
+        else
+          let a := (pickVal col (natD o "lo")).getD (absentVal col)
+          let b := (pickVal col (natD o "hi")).getD (absentVal col)
+          if Lbl.le a b then (a, b) else (b, a)
+      let a := args [("by", Json.str by_), ("lo", ofLbl lo), ("hi", ofLbl hi)]
+      if ok && d.temporal then pure (a, ofApply ws (.subsetTime i by_ lo hi))
+      else pure (a, .inadm)
+  | "sort_by" =>
+    match pickKey d.obs k with
+    | some by_ => pure (args [("by", Json.str by_)],
+        if ok then ofApply ws (.sortBy i by_) else .inadm)
+    | none => pure (args [], .inadm)
+  | "odd_even" =>
+    match pickKey d.obs k with
+    | some by_ =>
+      let a := args [("by", Json.str by_)]
+      if ok && groupsOf d by_ ≥ 2 then
+        pure (a, ofApply ws (.oddEven i by_))
+      else pure (a, .inadm)
+    | none => pure (args [], .inadm)
+  | "nested_odd_even" =>
+    match pickKey d.obs k, pickKey d.obs (natD o "k2") with
+    | some l1, some l2 =>
+      let a := args [("l1", Json.str l1), ("l2", Json.str l2)]
+      let fine := match splitObs l1 d with
+        | some parts => parts.all (fun p => groupsOf p l2 ≥ 2)
+        | none => false
+      if ok && fine then
+        pure (a, ofApply ws (.nestedOddEven i l1 l2))
+      else pure (a, .inadm)
+    | _, _ => pure (args [], .inadm)
+  | "bin_time" =>
+    match pickKey d.time k with
+    | none => pure (args [], .inadm)
+    | some by_ =>
+      let col := (d.time.col by_).getD []
+      let bins ← (fldD o "bins" (Json.arr #[])) |> asList (asList asNat)
+      let bins := bins.map (fun b => b.filterMap (pickVal col))
+      let a := args [("by", Json.str by_), ("bins", ofList (ofList ofLbl) bins)]
+      if ok && d.temporal && isIntCol col && !bins.isEmpty
+          && bins.all (fun b => !b.isEmpty) then
+        pure (a, ofApply ws (.binTime i by_ bins))
+      else pure (a, .inadm)
+  | "time_as_observations" =>
+    match pickKey d.time k with
+    | some by_ => pure (args [("by", Json.str by_)],
+        if ok && d.temporal then ofApply ws (.timeAsObs i by_) else .inadm)
+    | none => pure (args [], .inadm)
+  | "time_as_channels" =>
+    pure (args [], if ok && d.temporal then ofApply ws (.timeAsChan i) else .inadm)
+  | "df" | "df_default" =>
+    match pickKey d.chan k with
+    | some key =>
+      let col := (d.chan.col key).getD []
+      let a := args [("key", Json.str key)]
+      -- `df_default` lets from_df find the channels by dtype: representable only when no
+      -- descriptor holds non-integer numbers (float columns are read as channels)
+      let repr := name == "df" || (d.obs.all (fun kc => isIntOrStrCol kc.2) &&
+        d.desc.all (fun kv => isIntOrStrCol [kv.2]))
+      if ok && !d.temporal && repr && (uniqueFirst col).length == col.length then
+        pure (a, ofApply ws (.df i key))
+      else pure (a, .inadm)
+    | none => pure (args [], .inadm)
+  | "average_by" =>
+    match pickKey d.obs k with
+    | some by_ =>
+      let a := args [("by", Json.str by_)]
+      if ok && !d.temporal then
+        match averageBy by_ d with
+        | some (avg, us, ns) => pure (a, .query (obj [("avg", ofList (ofList ofRat) avg),
+            ("uniq", ofList ofLbl us), ("n", ofList ofNat ns)]))
+        | none => pure (a, .inadm)
+      else pure (a, .inadm)
+    | none => pure (args [], .inadm)
+  | "tensor" =>
+    match pickKey d.obs k with
+    | some by_ =>
+      let a := args [("by", Json.str by_)]
+      let col := (d.obs.col by_).getD []
+      let sizes := (uniqueFirst col).map (fun u => (indicesWhere (fun x => x == u) col).length)
+      if ok && !d.temporal && sizes.all (fun s => some s == sizes.head?) then
+        match tensorBy by_ d with
+        | some (t, us) => pure (a, .query (obj [("tensor", ofList (ofList (ofList ofRat)) t),
+            ("uniq", ofList ofLbl us)]))
+        | none => pure (a, .inadm)
+      else pure (a, .inadm)
+    | none => pure (args [], .inadm)
+  | _ => throw s!"unknown session op {name}"
+
+def session (j : Json) : R Json := do
+  let init ← fld j "init" >>= asDS
+  let ops ← fld j "ops" >>= asArr
+  let mut ws : List D := [init]
+  let mut outs : Array Json := #[]
+  for o in ops do
+    let (a, out) ← step ws o
+    match out with
+    | .inadm => outs := outs.push (obj [("args", a), ("out", Json.str "inadmissible")])
+    | .query q => outs := outs.push (obj [("args", a), ("out", obj [("query", q)])])
+    | .state ws' =>
+      ws := ws'
+      outs := outs.push (obj [("args", a), ("out", obj [("state", ofList ofDS ws')])])
+  pure (Json.arr outs)
+
+def handle : Handler := fun op j =>
+  match op with
+  | "c11.session" => some (session j)
+  | _ => none
 
 end Rsa.Drv.C11
